@@ -31,9 +31,9 @@ def invert(seq, rng):
     return "".join(rng.choice(common.NEG) if c in common.POS else rng.choice(common.POS) if c in common.NEG else c for c in seq)
 
 
-def query(lc, seq, names):
+def query(lc, seq, names, limit=300.0):
     o = lc.SP(seq)
-    return {n: common.call(getattr(o, n)) for n in names}
+    return {n: common.call(getattr(o, n), limit=limit) for n in names}
 
 
 def same(a, b, bitwise):
@@ -138,10 +138,10 @@ def run(ctx):
         # the size class of giant proteins (a quarter of a minute per SCD in the library itself): reversal and inversion of SCD
         for n_ in (4099, ctx.rng.randint(4100, 4400)):
             g_ = "".join(ctx.rng.choices("KEDRGSPQ", k=n_))
-            b_ = query(lc, g_, ["get_SCD"])
+            b_ = query(lc, g_, ["get_SCD"], limit=1800.0)
             ctx.evaluations += 1
             for name, var in (("reversal", g_[::-1]), ("inversion", invert(g_, ctx.rng))):
-                bv = query(lc, var, ["get_SCD"])
+                bv = query(lc, var, ["get_SCD"], limit=1800.0)
                 if not same(b_["get_SCD"], bv["get_SCD"], False):
                     ctx.violation("%s-changes-get_SCD" % name, {"seq": g_[:40] + "...", "length": n_}, expected=b_["get_SCD"], actual=bv["get_SCD"])
     ctx.sample({"trace": {"seq": seqs[0], "ev": ["get_kappa", "get_delta", "get_deltaMax", "get_SCD", "get_Omega"]}})
